@@ -79,7 +79,7 @@ for p in props:
             "quick_cmd": f"./check.sh {i} quick",
             "thorough_cmd": f"./check.sh {i} thorough",
             "evidence_file": f"/verif/evidence/{i}.json",
-            "replay_cmd_template": "./.work/bin/vcheck replay {path}",
+            "replay_cmd_template": "./check.sh replay {path}",
             "engine": "vcheck",
             "level_claimed": {"category": lvl, "text": text, "design_ref": "DESIGN.md section " + ref},
             "level_note": NOTE[i],
